@@ -246,6 +246,15 @@ pub fn mix_basis(sig: &mut Vec<Vec<isize>>, rng: &mut SplitMix) {
             }
         }
     }
+    // rarely: a loop momentum measured in other units (one column scaled by a large
+    // integer beyond the i32 range; products of two entries still fit an i64)
+    if rng.chance(1, 25) {
+        let i = rng.below(nl as u64) as usize;
+        let k: isize = *rng.pick(&[3_000_000_000isize, -2_500_000_000, 1 << 31, -(1 << 31) - 1, 65_537]);
+        for row in sig.iter_mut() {
+            row[i] = row[i].wrapping_mul(k);
+        }
+    }
 }
 
 pub struct GraphGenCfg {
